@@ -622,6 +622,13 @@ func drawReads(c *simkit.Choices, n int) []int {
 			reads[i] = 1 + c.N(n+1)
 		}
 	}
+	if c.N(6) == 0 {
+		// empty reads (0, nil) in between: "nothing happened", not end of input
+		reads = append(reads, 0)
+		if c.Bool() {
+			reads[0], reads[len(reads)-1] = reads[len(reads)-1], reads[0]
+		}
+	}
 	return reads
 }
 
